@@ -65,7 +65,11 @@ class Src:
         self.v = [int(x) for x in vals] or [0]
         self.j = 0
         self.tmax = max(1, int(tmax))
-        self.whole = bool(whole)     # float values are whole numbers (so that they can also be handed over integer-typed)
+        # float values are whole numbers (so that they can also be handed over integer-typed): True any whole number,
+        # 'u' non-negative whole numbers (fit an unsigned dtype), 'b' 0.0 / 1.0 (fit bool)
+        if whole not in (False, True, 'u', 'b'):
+            raise ValueError(whole)
+        self.whole = whole
 
     def raw(self):
         L = len(self.v)
@@ -78,6 +82,10 @@ class Src:
         if kind == 'i':
             return int(r)
         if kind == 'f':
+            if self.whole == 'u':
+                return float(abs(r))
+            if self.whole == 'b':
+                return float(r % 2)
             return float(r) if self.whole else r / 8.0
         if kind == 'b':
             return bool(r % 2 == 1)
